@@ -18,6 +18,7 @@ import BRV.Proofs.RepoLookup
 import BRV.Proofs.RepoExample
 import BRV.Proofs.RepoStreamStep
 import BRV.Proofs.LinearWorld
+import BRV.Props.C01
 
 namespace BRV.Repo
 
@@ -274,5 +275,24 @@ def exLinOps : List LinOp :=
 example : LinHist genesisRepo exLinOps := linHist_of_B _ _ (by decide)
 example : tipId (runOps genesisRepo exLinOps) = 5 ∧ tipHeight (runOps genesisRepo exLinOps) = 5 ∧
     ((runOps genesisRepo exLinOps).at 0 4).isNone = true := by decide
+
+/-- **C09 from any loaded state (held headers)**: after Load of a consistent image without repeated hashes and
+    any forest history, for every header a tracked branch holds in memory `Branches.Find` answers with that
+    branch and `HashHeight` is exactly the header's position — and no other tracked place holds the hash. -/
+theorem C09_held_exact_after_load (r0 : Repo) (depth : Int) (hd : 0 ≤ depth) (g : Hdr) (hst : StoreOK r0.store)
+    (hu : StoreUniq r0.store) (ops : List FOp) :
+    ∃ rl, load r0 depth g = (rl, none) ∧
+      (FHist rl ops → ∀ bi ∈ (ops.foldl applyF rl).branches, ∀ (i : Nat) (d : HData),
+        ((ops.foldl applyF rl).br bi).headers[i]? = some d →
+          hashHeight (ops.foldl applyF rl) d.hdr.id =
+            some (((ops.foldl applyF rl).br bi).parentHeight + ((ops.foldl applyF rl).br bi).offset + (i : Int)) ∧
+          ∀ bj ∈ (ops.foldl applyF rl).branches, ∀ (j : Nat) (e : HData),
+            ((ops.foldl applyF rl).br bj).headers[j]? = some e → e.hdr.id = d.hdr.id → bj = bi ∧ j = i) := by
+  obtain ⟨rl, hl, hok⟩ := load_sound r0 depth hd g hst
+  refine ⟨rl, hl, fun hh bi hbi i d hdd => ?_⟩
+  have hi0 := load_idOK r0 depth g rl hok hl hu
+  obtain ⟨hf, hi⟩ := idOK_forest_ops ops rl hok.forest ⟨hok.tip, hok.heaviest⟩ hi0 hh
+  exact ⟨hashHeight_held _ hf hi bi hbi i d hdd, fun bj hbj j e he heq => hi.uniq bj hbj bi hbi j i e d he hdd heq⟩
+
 
 end BRV.Repo
